@@ -106,6 +106,24 @@ func edgeVal64(r *Rng, m *ISet) uint64 {
 }
 
 func genSet64(r *Rng, maxBuckets int) *ISet {
+	if r.Chance(0.12) {
+		// many buckets, each holding one tiny range or a couple of values (smallest possible encodings)
+		nb := 3 + r.Intn(40)
+		s := NewISet()
+		base := []uint64{0, 1, 0x7FFFFFF0, 0xFFFFFF00, r.Range(0, max32-64)}[r.Intn(5)]
+		for k := uint64(0); k < uint64(nb); k++ {
+			if base+k > max32 {
+				break
+			}
+			lo := (base+k)<<32 | edgeVal32(r, NewISet())
+			hi := lo + []uint64{0, 0, 1, 2, 9}[r.Intn(5)]
+			if hi>>32 != lo>>32 {
+				hi = lo
+			}
+			s.AddRange(lo, hi)
+		}
+		return s
+	}
 	n := 0
 	switch x := r.Intn(10); {
 	case x == 0:
@@ -252,7 +270,7 @@ func genBM64(c *Ctx) *BM64 {
 }
 
 // genRange64 returns [s,e) with s<e<=2^64-1.
-func genRange64(r *Rng, m *ISet, allowFullBuckets bool) (uint64, uint64) {
+func genRange64(r *Rng, m *ISet, allowFullBuckets bool, removal ...bool) (uint64, uint64) {
 	s := edgeVal64(r, m)
 	var e uint64
 	switch x := r.Intn(10); {
@@ -273,6 +291,21 @@ func genRange64(r *Rng, m *ISet, allowFullBuckets bool) (uint64, uint64) {
 		e = s + r.Range(1<<32, 3<<32)
 	default:
 		e = s + 1 + r.Range(0, 300)
+	}
+	if allowFullBuckets && r.Chance(0.15) && m.NumIntervals() > 0 {
+		// [s, (b2+1)<<32) where bucket b2 holds elements and s lies in (or before) an earlier bucket
+		i1, i2 := r.Intn(m.NumIntervals()), r.Intn(m.NumIntervals())
+		if i1 > i2 {
+			i1, i2 = i2, i1
+		}
+		b1, b2 := m.iv[i1].Lo>>32, m.iv[i2].Hi>>32
+		if b2 < max32 && (len(removal) > 0 || b2-b1 <= 2) {
+			e = (b2 + 1) << 32
+			s = []uint64{m.iv[i1].Lo, m.iv[i1].Lo &^ max32, m.iv[i1].Lo + 1, b1<<32 | r.Range(0, max32)}[r.Intn(4)]
+			if s >= e {
+				s = e - 1
+			}
+		}
 	}
 	if e <= s { // overflow or empty
 		if s == maxU64 {
@@ -360,7 +393,7 @@ func mutateStep64(c *Ctx, bm *BM64, full bool) string {
 		c.Guard(sig, func() { b.AddRange(s, e) })
 		m.AddRange(s, e-1)
 	case "RemoveRange":
-		s, e := genRange64(r, m, true)
+		s, e := genRange64(r, m, true, true)
 		c.Step("RemoveRange(%d,%d)", s, e)
 		c.Guard(sig, func() { b.RemoveRange(s, e) })
 		m.RemoveRange(s, e-1)
